@@ -1645,9 +1645,39 @@ pub fn task_campaign(cfg: &Cfg, rep: &mut Report, n: usize) {
     let pool = Pool::new();
     let sched = pool.scheduler();
     let handles: Vec<_> = (0..ntasks).map(|t| schedule_once(&sched, body_with_point, &log, 10 + t as u32)).collect();
-    let left = Arc::new(AtomicUsize::new(1));
+    // half of the runs hold every handle in its shared form (a cell with two owners, the form
+    // debounce / throttle keep their pending task in): a second owner samples is_closed() and
+    // unsubscribes on a thread of its own
+    let shared_form = r.chance(1, 2);
+    let left = Arc::new(AtomicUsize::new(if shared_form { 2 } else { 1 }));
     let mut bodies: Vec<Box<dyn FnOnce() + Send>> = vec![];
-    {
+    if shared_form {
+      rep.count("runs_with_handles_shared_by_two_owners", 1);
+      let cells: Vec<rxrust::rc::MutArc<Option<rxrust::scheduler::TaskHandle<NormalReturn<()>>>>> = handles.into_iter().map(|h| rxrust::rc::MutArc::own(Some(h))).collect();
+      for owner in 0..2u32 {
+        let (log, left, cells) = (log.clone(), left.clone(), cells.clone());
+        let pre_yields = r.below(4);
+        let samples = if owner == 1 { 1 + r.below(3) } else { 0 };
+        bodies.push(Box::new(move || {
+          for _ in 0..pre_yields {
+            conc::yield_now();
+          }
+          for (t, h) in cells.into_iter().enumerate() {
+            for _ in 0..samples {
+              log.mark(10 + t as u32, "closed_call", 0);
+              let c = h.is_closed();
+              log.mark(10 + t as u32, if c { "closed_true" } else { "closed_false" }, 0);
+              conc::yield_now();
+            }
+            log.mark(10 + t as u32, if owner == 0 { "cancel_call" } else { "cancel2_call" }, 0);
+            h.unsubscribe();
+            log.mark(10 + t as u32, if owner == 0 { "cancel_ret" } else { "cancel2_ret" }, 0);
+            conc::yield_now();
+          }
+          left.fetch_sub(1, Ordering::SeqCst);
+        }));
+      }
+    } else {
       let (log, left) = (log.clone(), left.clone());
       let pre_yields = r.below(4);
       bodies.push(Box::new(move || {
@@ -1717,6 +1747,22 @@ pub fn task_campaign(cfg: &Cfg, rep: &mut Report, n: usize) {
           }
           if cancelled_mid {
             rep.count("cancellations_while_body_running_or_done", 1);
+          }
+        }
+        // the second owner of a shared handle: its unsubscribe() and every is_closed() == true
+        // are held to the same standard (the task can no longer act)
+        for e in evs.iter().filter(|e| e.id == id) {
+          let what = match &e.k {
+            K::Mark("cancel2_ret", _) => "the second owner's unsubscribe() returned",
+            K::Mark("closed_true", _) => "is_closed() returned true to the second owner",
+            _ => continue,
+          };
+          if let Some(run) = run {
+            if run > e.seq {
+              res = Some(("ran_after_cancel".into(), json!({"why": format!("task {} body started at stamp {} after {} at {}", t, run, what, e.seq)})));
+            } else if end.map_or(true, |x| x > e.seq) {
+              res = Some(("still_running_after_cancel".into(), json!({"why": format!("task {} body was still running (end stamp {:?}) when {} at {}", t, end, what, e.seq)})));
+            }
           }
         }
       }
